@@ -32,7 +32,8 @@ Quirks transcribed as coded (each exercised by the correspondence harness):
   built-in transactions that failed to execute;
 * built-in transactions are appended without consulting the duplicate map, the cost total or the byte size;
 * the verifier's duplicate test for built-in transactions looks at the function NAME of every transaction of the block
-  (`isBuildInTxn`), not at the sender or the called contract.
+  (`isBuildInTxn`), not at the sender or the called contract; since the repair 3af329c the generator's pool iteration
+  skips a pool transaction with such a name (same predicate) before any other test.
 Core-only (linked into `zdrv-C45`).
 -/
 namespace ZChain.BlockGen
@@ -212,7 +213,8 @@ deriving DecidableEq, Repr
 
 /-- `txnIterHandlerFunc`. -/
 def iterHandler (cfg : Cfg) (date : Int) (g : GS) (p : PTxn) : GS × Ctl :=
-  if p.txn.value > maxTokenSupply then ({ g with invalid := g.invalid ++ [p.key] }, .error)
+  if p.bname.isSome then (g, .continue)     -- `isBuildInTxn(txn)`: left to the generator's own transaction of that name
+  else if p.txn.value > maxTokenSupply then ({ g with invalid := g.invalid ++ [p.key] }, .error)
   else
     match p.cost with
     | none => (g, .continue)
